@@ -213,6 +213,9 @@ func propC17(c *Ctx) {
 		c.Check(rm, "encodeState.marshal", l.Pos(ms.Pos()), good, "deferred recover asserts jsonError and re-panics others", "the encoder's recover does not single out its own jsonError values")
 	}
 
+	rjp := c.Rule("json-panic-typed", "every explicit panic on the encoding path carries the jsonError wrapper that Marshal's recover converts into an error", 1)
+	ruleJSONPanicTyped(c, rjp)
+
 	// ---- enc-dispatch (informational) ---------------------------------------------------------------------
 	var names []string
 	for fn := range encs {
